@@ -97,18 +97,21 @@ def updateNext (s : St) : St × Res :=
     let p := precompute (refreshed s d)
     if p.2 = .ok then p else ({ p.1 with nextStale := p.1.computed.isSome }, p.2)
 
+/-- the state a successful `inform_epoch e` leaves: the snapshot of the rows of the epochs `e - 1` and `e`, no computed data -/
+def informed (s : St) (e : Nat) : St :=
+  let cur := signersAt s.store (e - 1)
+  let next := signersAt s.store e
+  { s with data := some { epoch := e, cur, next, nextSnap := next.map (·.party),
+                          totalCur := totalOf cur, totalNext := totalOf next },
+           computed := none, nextStale := false }
+
 def step (s : St) : Op → St × Res
   | .save r => ({ s with store := r :: s.store.filter (fun x => !sameKey r x) }, .ok)
   | .prune e => ({ s with store := s.store.filter (fun x => decide (e ≤ x.epoch)) }, .ok)
   | .inform e =>
     if e = 0 then (s, .badEpoch)
-    else
-      let cur := signersAt s.store (e - 1)
-      let next := signersAt s.store e
-      if totalOf cur ≥ 2 ^ 64 ∨ totalOf next ≥ 2 ^ 64 then (s, .panic)
-      else ({ s with data := some { epoch := e, cur, next, nextSnap := next.map (·.party),
-                                    totalCur := totalOf cur, totalNext := totalOf next },
-                     computed := none, nextStale := false }, .ok)
+    else if totalOf (signersAt s.store (e - 1)) ≥ 2 ^ 64 ∨ totalOf (signersAt s.store e) ≥ 2 ^ 64 then (s, .panic)
+    else (informed s e, .ok)
   | .updateNext => updateNext s
   | .precompute => precompute s
 
@@ -194,7 +197,7 @@ theorem step_inv (s : St) (op : Op) (h : Inv s) : Inv (step s op).1 := by
     · exact h
     · split
       · exact h
-      · exact ⟨fun _ hc => by simp at hc, fun _ _ hc => by simp at hc⟩
+      · exact ⟨fun _ hc => by simp [informed] at hc, fun _ _ hc => by simp [informed] at hc⟩
   | precompute =>
     simp only [step]
     rcases precompute_spec s with ⟨_, hcoh, _, _, _⟩ | ⟨_, _, _, heq⟩ | ⟨_, _, heq⟩
@@ -244,7 +247,7 @@ theorem step_flag (s : St) (op : Op) (h : (step s op).1.nextStale = true) :
     · exact Or.inl h
     · split at h
       · exact Or.inl h
-      · simp at h
+      · simp [informed] at h
   | precompute =>
     simp only [step] at h
     rcases precompute_spec s with ⟨_, _, hst, _, _⟩ | ⟨_, _, _, heq⟩ | ⟨_, _, heq⟩
@@ -308,7 +311,7 @@ theorem step_ok_coherent (s : St) (op : Op) (hop : op = .inform e ∨ op = .upda
     · by_cases h1 : totalOf (signersAt s.store (e - 1)) ≥ 2 ^ 64 ∨ totalOf (signersAt s.store e) ≥ 2 ^ 64
       · simp [h0, h1] at hok
       · simp only [h0, h1, if_false]
-        exact ⟨fun _ hc => by simp at hc, fun _ hc => by simp at hc⟩
+        exact ⟨fun _ hc => by simp [informed] at hc, fun _ hc => by simp [informed] at hc⟩
   · simp only [step] at hok ⊢
     cases hd : s.data with
     | none => simp [updateNext, hd] at hok
@@ -423,7 +426,7 @@ theorem step_dataWF (s : St) (op : Op) (h : DataWF s) : DataWF (step s op).1 := 
     · split
       · exact h.lists
       · intro d hd
-        simp only [Option.some.injEq] at hd
+        simp only [informed, Option.some.injEq] at hd
         subst hd
         exact ⟨signersAt_wf h.store _, signersAt_wf h.store _⟩
   | precompute =>
@@ -489,6 +492,47 @@ theorem keys_function_of_set (ops₁ ops₂ : List Op)
     rw [build_perm hp wf₁.1, hb'] at hb
     exact (Except.ok.inj hb).symm
 
+/-- **The keys after `inform_epoch e` + `precompute_epoch_data` are those of the store's rows of the epochs `e - 1` and
+`e`** (the real offsets), whatever state the service was in before — what a fresh service reports -/
+theorem informed_keys (s : St) (e : Nat) (c : Computed) (h1 : (step s (.inform e)).2 = .ok)
+    (h2 : (step (step s (.inform e)).1 .precompute).1.computed = some c) :
+    build (signersAt s.store (e - 1)) = .ok c.cur ∧ build (signersAt s.store e) = .ok c.next := by
+  simp only [step] at h1 h2
+  by_cases h0 : e = 0
+  · simp [h0] at h1
+  · by_cases hov : totalOf (signersAt s.store (e - 1)) ≥ 2 ^ 64 ∨ totalOf (signersAt s.store e) ≥ 2 ^ 64
+    · simp [h0, hov] at h1
+    · simp only [h0, hov, if_false] at h2
+      have hc1 : (informed s e).computed = none := rfl
+      rcases precompute_spec (informed s e) with ⟨_, hcoh, _, hdat, _⟩ | ⟨_, _, _, heq⟩ | ⟨_, _, heq⟩
+      · obtain ⟨d, hd, hb⟩ := hcoh.1 c h2
+        obtain ⟨d', hd', hb'⟩ := hcoh.2 c h2
+        rw [hdat] at hd hd'
+        simp only [informed, Option.some.injEq] at hd hd'
+        subst hd; subst hd'
+        exact ⟨hb, hb'⟩
+      · rw [heq, hc1] at h2; cases h2
+      · rw [heq, hc1] at h2; cases h2
+
+/-- **Live = fresh**: a coherent live service whose snapshot holds the store's present rows reports exactly what a
+fresh service, informed of the same epoch over the same store, computes -/
+theorem live_agrees_with_fresh (s : St) (hcoh : Coh s) (d : Data) (c cf : Computed) (hd : s.data = some d)
+    (hc : s.computed = some c) (hcur : d.cur = signersAt s.store (d.epoch - 1)) (hnext : d.next = signersAt s.store d.epoch)
+    (h1 : (step { store := s.store } (.inform d.epoch)).2 = .ok)
+    (h2 : (step (step { store := s.store } (.inform d.epoch)).1 .precompute).1.computed = some cf) : c = cf := by
+  obtain ⟨hf1, hf2⟩ := informed_keys { store := s.store } d.epoch cf h1 h2
+  obtain ⟨d1, hd1, hb1⟩ := hcoh.1 c hc
+  obtain ⟨d2, hd2, hb2⟩ := hcoh.2 c hc
+  rw [hd] at hd1 hd2
+  simp only [Option.some.injEq] at hd1 hd2
+  subst hd1; subst hd2
+  simp only at hf1 hf2
+  rw [← hcur, hb1] at hf1
+  rw [← hnext, hb2] at hf2
+  have e1 : c.cur = cf.cur := Except.ok.inj hf1
+  have e2 : c.next = cf.next := Except.ok.inj hf2
+  cases c; cases cf; simp_all
+
 /-! ### what the code does NOT keep (counter-examples on the model of the code as it is) -/
 
 /-- `update_next_signers_with_stake` never refreshes `next_signers` / `total_next_stakes_signers` -/
@@ -536,7 +580,7 @@ theorem failed_update_counterexample : ¬ coherent_goal := by
         = some ⟨⟨[⟨5, 7⟩], 5⟩, ⟨[⟨5, 7⟩], 5⟩⟩ ∧
       (run {} [.save ⟨1, 1, 7, 5⟩, .save rowA, .inform 2, .precompute, .save rowDup, .updateNext]).1.data
         = some ⟨2, [⟨1, 1, 7, 5⟩], [⟨2, 2, 7, 6⟩, ⟨1, 1, 7, 5⟩], [1], 5, 5⟩ := by
-    simp [run, step, updateNext, refreshed, precompute, build, regLoop, stakeOf, closeReg, ofClose, close, signersAt,
+    simp [run, step, informed, updateNext, refreshed, precompute, build, regLoop, stakeOf, closeReg, ofClose, close, signersAt,
       sameKey, totalOf, rowA, rowDup, Row.signer]
   obtain ⟨d, hd, hb⟩ := hcoh _ hrun.1
   rw [hrun.2] at hd
